@@ -253,15 +253,55 @@ type srcSpec struct {
 	fail  bool
 	chunk int
 	wt    bool
+	// impl selects the Go type handed to ReadFrom/Stream (the model only sees its behaviour, see eff()):
+	//   ""               chunkReader, a plain io.Reader (or bytes.Reader when wt)
+	//   "bytes.Reader" "strings.Reader" "bytes.Buffer"   standard sources with io.WriterTo (wt must be set)
+	//   "limited"        *io.LimitedReader{R: chunkReader, N: limit}   (no WriterTo; io.Copy sizes its buffer to N)
+	//   "eager"          plain io.Reader that returns the last chunk TOGETHER with io.EOF / the error
+	impl  string
+	limit int
+}
+
+// eff is the behaviour of the source as the model describes it (data, fail, chunk, wt).
+func (s srcSpec) eff() srcSpec {
+	e := srcSpec{data: s.data, fail: s.fail, chunk: s.chunk, wt: s.wt}
+	if s.impl == "limited" {
+		if s.limit <= len(s.data) { // the limit is reached before the inner reader can report its error
+			e.data, e.fail = s.data[:s.limit], false
+		}
+	}
+	if e.wt {
+		e.fail, e.chunk = false, 0
+	}
+	return e
 }
 
 type chunkReader struct {
 	data  []byte
 	fail  bool
 	chunk int
+	eager bool
 }
 
 func (s *chunkReader) Read(p []byte) (int, error) {
+	if s.eager && len(s.data) > 0 {
+		n := len(s.data)
+		if s.chunk > 0 && n > s.chunk {
+			n = s.chunk
+		}
+		if n > len(p) {
+			n = len(p)
+		}
+		copy(p, s.data[:n])
+		s.data = s.data[n:]
+		if len(s.data) == 0 {
+			if s.fail {
+				return n, errSrc
+			}
+			return n, io.EOF
+		}
+		return n, nil
+	}
 	if len(s.data) == 0 {
 		if s.fail {
 			return 0, errSrc
@@ -281,16 +321,34 @@ func (s *chunkReader) Read(p []byte) (int, error) {
 }
 
 func (s srcSpec) reader() io.Reader {
+	switch s.impl {
+	case "strings.Reader":
+		return strings.NewReader(s.data)
+	case "bytes.Buffer":
+		return bytes.NewBufferString(s.data)
+	case "limited":
+		return &io.LimitedReader{R: &chunkReader{data: []byte(s.data), fail: s.fail, chunk: s.chunk}, N: int64(s.limit)}
+	case "eager":
+		return &chunkReader{data: []byte(s.data), fail: s.fail, chunk: s.chunk, eager: true}
+	}
 	if s.wt {
 		return bytes.NewReader([]byte(s.data)) // implements io.WriterTo
 	}
 	return &chunkReader{data: []byte(s.data), fail: s.fail, chunk: s.chunk}
 }
 func (s srcSpec) coq() string {
-	return fmt.Sprintf("(mksrc %s %s %d%%nat %s)", hx.Bytes(s.data), hx.Bool(s.fail), s.chunk, hx.Bool(s.wt))
+	e := s.eff()
+	return fmt.Sprintf("(mksrc %s %s %d%%nat %s)", hx.Bytes(e.data), hx.Bool(e.fail), e.chunk, hx.Bool(e.wt))
 }
 func (s srcSpec) String() string {
-	return fmt.Sprintf("src{%q fail=%v chunk=%d writerTo=%v}", s.data, s.fail, s.chunk, s.wt)
+	impl := s.impl
+	if impl == "" {
+		impl = map[bool]string{true: "bytes.Reader", false: "plainReader"}[s.wt]
+	}
+	if impl == "limited" {
+		impl = fmt.Sprintf("io.LimitedReader(N=%d)", s.limit)
+	}
+	return fmt.Sprintf("src{%s %q fail=%v chunk=%d writerTo=%v}", impl, s.data, s.fail, s.chunk, s.wt)
 }
 
 // ---------------------------------------------------------------- actions
@@ -662,6 +720,10 @@ func main() {
 		// empty payloads and an empty content type
 		{op: "Blob", code: 200, ct: "", data: ""},
 		{op: "Stream", code: 200, ct: "text/c14", src: srcSpec{}},
+		// an EMPTY source with io.WriterTo makes no Write at all: the status must still go out
+		{op: "Stream", code: 200, ct: "text/c14", src: srcSpec{wt: true, impl: "strings.Reader"}},
+		{op: "ReadFrom", src: srcSpec{wt: true, impl: "bytes.Buffer"}},
+		{op: "String", code: 200, isFmt: true, format: ""},
 	}
 	var defs strings.Builder
 	for _, k := range kinds {
@@ -837,8 +899,17 @@ func main() {
 	}
 	rsrc := func() srcSpec {
 		s := srcSpec{data: rstr(8), fail: rnd.Pct(35), chunk: rnd.Intn(4)}
-		if !s.fail && s.chunk == 0 && rnd.Pct(40) {
-			s.wt = true
+		if rnd.Pct(25) { // sizes 0 and 1 matter: an empty io.WriterTo source performs no Write at all
+			s.data = s.data[:min(len(s.data), rnd.Intn(2))]
+		}
+		switch p := rnd.Intn(100); {
+		case p < 30:
+			s.fail, s.chunk, s.wt = false, 0, true
+			s.impl = hx.Pick(rnd, []string{"bytes.Reader", "strings.Reader", "bytes.Buffer"})
+		case p < 42:
+			s.impl, s.limit = "limited", rnd.Intn(len(s.data)+3)
+		case p < 54:
+			s.impl = "eager"
 		}
 		return s
 	}
@@ -944,6 +1015,46 @@ func main() {
 		add((k+3)%len(kinds), -1, false, []action{{op: "Stream", code: c, ct: "text/c14", src: srcSpec{data: "st", chunk: 1}}}, "sweep-helper-code", c%2 == 1)
 	}
 	scopes = append(scopes, fmt.Sprintf("Redirect on a fresh writer for every code 0..1000 and %d negative/large/wrapped codes; WriteHeader;Write;WriteHeader, String, Blob, Stream for every code 100..599", len(sweepCodes)-1001))
+
+	// 7. body sources as a dimension, every run: ReadFrom / Stream(200) / Stream(201) with every kind of source
+	//    (plain reader, 1-byte chunks, eager EOF, bytes.Reader, strings.Reader, bytes.Buffer, io.LimitedReader
+	//    with limits around the length, readers failing at once or midway) x sizes 0, 1, many, and zero-length
+	//    String / Blob, each followed by WriteHeader(500) (what Recovery does when Written() is false):
+	//    "the helper sends exactly the status it is given, even for an empty body"
+	var srcs []srcSpec
+	for _, d := range []string{"", "x", "hello world"} {
+		for _, f := range []bool{false, true} {
+			srcs = append(srcs, srcSpec{data: d, fail: f}, srcSpec{data: d, fail: f, chunk: 1}, srcSpec{data: d, fail: f, chunk: 3, impl: "eager"})
+			for _, l := range []int{0, 1, len(d) - 1, len(d), len(d) + 5} {
+				if l >= 0 {
+					srcs = append(srcs, srcSpec{data: d, fail: f, chunk: 4, impl: "limited", limit: l})
+				}
+			}
+		}
+		for _, im := range []string{"bytes.Reader", "strings.Reader", "bytes.Buffer"} {
+			srcs = append(srcs, srcSpec{data: d, wt: true, impl: im})
+		}
+	}
+	after := action{op: "WriteHeader", code: 500}
+	nsrc := 0
+	for _, ki := range []int{1, 2, 8, 9} { // kRf(+kBare), kRfSw, kAll(+kAllNoFast), kSw
+		for _, b := range []int{-1, 2} {
+			for i, sp := range srcs {
+				tc := (i+ki)%2 == 0
+				add(ki, b, false, []action{{op: "ReadFrom", src: sp}, after}, "sweep-sources", tc)
+				add(ki, b, false, []action{{op: "Stream", code: 200, ct: "text/c14", src: sp}, after}, "sweep-sources", tc)
+				add(ki, b, false, []action{{op: "Stream", code: 201, ct: "text/c14", src: sp}, after}, "sweep-sources", !tc)
+				add(ki, b, false, []action{{op: "WriteHeader", code: 103}, {op: "Stream", code: 200, ct: "", src: sp}, after}, "sweep-sources", !tc)
+				nsrc++
+			}
+			for _, code := range []int{200, 201, 204, 404} {
+				add(ki, b, false, []action{{op: "String", code: code, isFmt: true, format: ""}, after}, "sweep-sources", false)
+				add(ki, b, false, []action{{op: "Blob", code: code, ct: "application/x-c14", data: ""}, after}, "sweep-sources", true)
+				add(ki, b, false, []action{{op: "String", code: code, isFmt: true, format: "%s", fargs: []any{""}}, after}, "sweep-sources", true)
+			}
+		}
+	}
+	scopes = append(scopes, fmt.Sprintf("ReadFrom, Stream(200), Stream(201), WriteHeader(103);Stream(200) x %d sources (plain/1-byte chunks/eager EOF/bytes.Reader/strings.Reader/bytes.Buffer/io.LimitedReader; sizes 0, 1, 11; failing or not) and zero-length String/Blob x codes {200,201,204,404}, each followed by WriteHeader(500), x 4 kinds x budgets {inf,2}", len(srcs)))
 
 	// observations that occur often get a name in the header (keeps the case files small:
 	// coqc spends its time elaborating the literals, not evaluating the model)
